@@ -50,7 +50,7 @@ class Cli:
         os.makedirs(d)
         return d
 
-    def run(self, argv, cwd, stdin=None, inject=None, path_filter=None, timeout=120, block_random_devices=False):
+    def run(self, argv, cwd, stdin=None, inject=None, path_filter=None, timeout=120, block_random_devices=False, trace_also=None, trace_only=None):
         """-> (rc, stdout bytes, stderr text, injected count)"""
         self.runs += 1
         cmd = list(argv)
@@ -58,9 +58,13 @@ class Cli:
         env = self.env
         if block_random_devices:
             env = dict(self.env, LD_PRELOAD=self.block_shim(), VF_BLOCK_LOG=os.path.join(cwd, 'blocked.log'))
+        self.last_log = ''
+        if trace_only:
+            log = os.path.join(cwd, 'strace.%d.log' % self.runs)
+            cmd = ['strace', '-f', '-o', log, '-e', 'trace=' + trace_only] + list(argv)
         if inject:
             log = os.path.join(cwd, 'strace.%d.log' % self.runs)
-            cmd = ['strace', '-f', '-o', log, '-e', 'trace=' + inject.split(':')[0], '-e', 'inject=' + inject]
+            cmd = ['strace', '-f', '-o', log, '-e', 'trace=' + inject.split(':')[0] + (',' + trace_also if trace_also else ''), '-e', 'inject=' + inject]
             if path_filter:
                 cmd += ['-P', os.path.join(cwd, path_filter)]
             cmd += list(argv)
@@ -75,7 +79,8 @@ class Cli:
         inj = 0
         if log and os.path.exists(log):
             with open(log, errors='replace') as f:
-                inj = f.read().count('(INJECTED)')
+                self.last_log = f.read()
+            inj = self.last_log.count('(INJECTED)')
             os.unlink(log)
         self.injected += inj
         return rc, out, err, inj
@@ -387,15 +392,29 @@ def iofault(ctx, cli, rng, size, pw):
             # "the random source fails": EVERY getrandom call fails and the random device files cannot be opened.  (A single
             # refused call is not a failed source if the tool gets its entropy another way: then it may fail closed or succeed.)
             expect_fail('getrandom:error=ENOSYS', None, 'random-source-unavailable', 0, block_random_devices=True)
-            for k in (1, 2):
+            # a single refused request: first see which getrandom calls the un-faulted run makes (glibc's malloc makes one of its
+            # own, 8 bytes with GRND_NONBLOCK, whose failure glibc ignores - not the tool's business)
+            if os.path.exists(outpath):
+                os.unlink(outpath)
+            cli.run(argv, d, trace_only='getrandom,openat')
+            base_calls = re.findall(r'getrandom\((?:[^,]*), (\d+), ([A-Z_|0-9x]+)\)', cli.last_log)
+            own = [i + 1 for i, (sz, fl) in enumerate(base_calls) if 'GRND_NONBLOCK' not in fl]
+            for k in own[:3]:
                 if os.path.exists(outpath):
                     os.unlink(outpath)
-                rc, _, err, inj = cli.run(argv, d, inject='getrandom:error=ENOSYS:when=%d' % k)
+                rc, _, err, inj = cli.run(argv, d, inject='getrandom:error=ENOSYS:when=%d' % k, trace_also='openat')
+                after = cli.last_log.split('(INJECTED)', 1)[1] if '(INJECTED)' in cli.last_log else ''
+                alt = bool(re.search(r'openat\([^)]*"/dev/u?random"[^)]*\) = \d', after)) or len(re.findall(r'getrandom\(', cli.last_log)) > len(base_calls)
                 if inj and rc == 0:
                     rc2, _, _, _ = cli.run([cli.crypt, '-d', '-p', pw, '-o', 'chk.dec', outp], d)
                     okk = rc2 == 0 and os.path.exists(os.path.join(d, 'chk.dec')) and open(os.path.join(d, 'chk.dec'), 'rb').read() == data
                     ctx.counters['single_getrandom_failure_survived'] = ctx.counters.get('single_getrandom_failure_survived', 0) + 1
-                    if not okk:
+                    if not alt:
+                        # exit 0 although one of the tool's own entropy requests was refused and nothing replaced it (no retry,
+                        # no random device opened): the failure of the random source was ignored
+                        vio(ctx, cli, 'C19', 'asconcrypt:iofault:exit-zero:%s:getrandom-ENOSYS-ignored' % opname, k=k, size=size, output_exists=os.path.exists(outpath),
+                            getrandom_calls=len(re.findall(r'getrandom\(', cli.last_log)), baseline_calls=len(base_calls))
+                    elif not okk:
                         vio(ctx, cli, 'C19', 'asconcrypt:iofault:exit-zero-with-unusable-output:getrandom-ENOSYS', k=k, size=size, decrypt_exit=rc2)
                 elif inj and os.path.exists(outpath):
                     vio(ctx, cli, 'C19', 'asconcrypt:iofault:partial-output-left:%s:getrandom-ENOSYS' % opname, k=k, size=size, exit=rc)
